@@ -1,2 +1,4 @@
+#[path = "../../../checks/src/props/c01_gen.rs"]
+pub mod c01_gen;
 #[path = "../../../checks/src/props/c02_gen.rs"]
 pub mod c02_gen;
